@@ -1,6 +1,6 @@
 (* C06 — property theorems (statements only).  Owner: builder-parse. *)
 From Coq Require Import List NArith Bool Arith.
-From DV Require Import C06.Model C06.Lr C06.Proofs C06.Fuel C06.StrProofs C06.LayoutProofs C06.TablesProofs.
+From DV Require Import C06.Model C06.Lr C06.Proofs C06.Fuel C06.StrProofs C06.LayoutProofs C06.TablesProofs C06.Needed.
 Import ListNotations.
 
 (* the committed LALR tables (regenerated from feel-parser/src/lalr.rs on this run) give, on every ordered pair of
@@ -47,14 +47,65 @@ Theorem C06_fuel_suffices : forall f ts t, parse_fuel f ts = Some t -> parse_tok
 Proof. exact parse_tokens_complete. Qed.
 Print Assumptions C06_fuel_suffices.
 
-(* needed parentheses, in part: proved for every tree made of an operator over an operator (20 x 20 operator shapes, the
-   inner one in each operand position): every pair of parentheses of the minimal rendering is needed (without it parse_tokens
-   does not give the tree back) and both renderings round-trip with the concrete fuel of parse_tokens.
-   Missing: the statement for all trees (no bound); deeper trees are covered by the correspondence check only. *)
-Theorem C06_needed_paren_partial : forall k1 k2 pos, k1 < shapes -> k2 < shapes -> pos < 3 ->
-  all_needed (nested k1 k2 pos) = true /\ roundtrips (nested k1 k2 pos) = true.
-Proof. exact needed_nested. Qed.
-Print Assumptions C06_needed_paren_partial.
+(* needed parentheses, for ALL trees of the fragment (no bound on depth or size), coq/C06/Needed.v.
+   Soundness direction of the Spec parser as a counting invariant: whatever token list the parser turns into t (any fuel, any
+   parentheses, redundant ones included) has at least as many opening parentheses as the minimal rendering of t *)
+Theorem C06_min_rendering_minimal : forall f ts t, parse_fuel f ts = Some t -> count_lp (render_min t) <= count_lp ts.
+Proof. exact parse_count. Qed.
+Print Assumptions C06_min_rendering_minimal.
+
+(* hence every pair of the minimal rendering is needed: with the k-th opening parenthesis (counted over all of them, grouping
+   and invocation parentheses alike) and its partner removed, the parser does not give t back: another tree, or no tree *)
+Theorem C06_needed_paren : forall t k, k < count_lp (render_min t) -> parse_tokens (drop_paren k (render_min t)) <> Some t.
+Proof. exact needed_paren. Qed.
+Print Assumptions C06_needed_paren.
+
+(* ... whatever the fuel *)
+Theorem C06_needed_paren_fuel : forall t k f, k < count_lp (render_min t) -> parse_fuel f (drop_paren k (render_min t)) <> Some t.
+Proof. exact needed_paren_fuel. Qed.
+Print Assumptions C06_needed_paren_fuel.
+
+(* the boolean form evaluated by the check for every generated tree, now a theorem for all trees *)
+Theorem C06_all_needed : forall t, all_needed t = true.
+Proof. exact all_needed_all. Qed.
+Print Assumptions C06_all_needed.
+
+(* without reference to drop_paren: wherever an opening and a closing parenthesis stand in the minimal rendering, the token
+   list without the two does not parse back to t *)
+Theorem C06_needed_paren_split : forall t pre body post, render_min t = pre ++ TLp :: body ++ TRp :: post ->
+  parse_tokens (pre ++ body ++ post) <> Some t.
+Proof. exact needed_paren_split. Qed.
+Print Assumptions C06_needed_paren_split.
+
+(* the structural form: x occurs in t at any depth (Occ: chain of operand positions, each with the level it allows: lc/rc of a
+   binary operator, r_neg, lv_between / 0 / rc_between, c_post, 0 for filter index and argument) and its level is below the level
+   of its position (lower than the parent's, or equal on the non-associative side).  Then the minimal rendering has a matched pair
+   around the tokens of x, drop_paren with the pair's running number removes exactly that pair, and what remains does not parse
+   back to t *)
+Theorem C06_needed_paren_at : forall t m x, Occ t m x -> lvl x < m ->
+  exists pre post,
+    render_min t = pre ++ TLp :: body_of x ++ TRp :: post /\
+    drop_paren (count_lp pre) (render_min t) = pre ++ body_of x ++ post /\
+    parse_tokens (pre ++ body_of x ++ post) <> Some t.
+Proof. exact needed_paren_at. Qed.
+Print Assumptions C06_needed_paren_at.
+
+(* not vacuous: a tree with three needed pairs; removing the first or the second gives another tree, removing the third
+   (the left operand of a non-associative operator, two levels down) gives no tree *)
+Example C06_needed_nonvacuous :
+  count_lp (render_min needed_witness) = 3 /\
+  parse_tokens (drop_paren 0 (render_min needed_witness))
+    = Some (Bin Add (Atom 1) (Bin Mul (Atom 2) (Neg (Bin Lt (Bin Lt (Atom 3) (Atom 4)) (Atom 5))))) /\
+  parse_tokens (drop_paren 1 (render_min needed_witness))
+    = Some (Bin Lt (Bin Mul (Bin Add (Atom 1) (Atom 2)) (Neg (Bin Lt (Atom 3) (Atom 4)))) (Atom 5)) /\
+  parse_tokens (drop_paren 2 (render_min needed_witness)) = None.
+Proof. exact needed_witness_outcomes. Qed.
+Print Assumptions C06_needed_nonvacuous.
+
+Example C06_needed_nonvacuous_occ :
+  Occ needed_witness (lc Lt) (Bin Lt (Atom 3) (Atom 4)) /\ lvl (Bin Lt (Atom 3) (Atom 4)) < lc Lt.
+Proof. exact needed_witness_occ. Qed.
+Print Assumptions C06_needed_nonvacuous_occ.
 
 Example C06_nonvacuous :
   render_min (Bin Mul (Bin Add (Atom 1) (Neg (Neg (Atom 3)))) (Btw (Atom 5) (Bin And (Atom 7) (Atom 9)) (Atom 11)))
